@@ -85,6 +85,8 @@ class _StructStub:
         for _ in range(n):
             out.append(u % 256)
             u = u // 256
+        if fmt[0] in '>!':
+            out.reverse()          # '=' and '<' are little-endian here (x86-64 / aarch64-le), '>' and '!' big-endian
         return out
 
     @staticmethod
@@ -93,7 +95,8 @@ class _StructStub:
         if len(bs) != n:
             raise _real_struct.error(f'unpack requires a buffer of {n} bytes')
         u = 0
-        for k in range(n - 1, -1, -1):
+        order = range(n - 1, -1, -1) if fmt[0] not in '>!' else range(n)
+        for k in order:
             u = u * 256 + bs[k]
         if signed is None:
             if FLOAT_MODE == 'real':
